@@ -43,14 +43,13 @@ func propBackendModel(c *Case) {
 			DeleteExpiredJobInterval: farFuture, DeleteExpiredAfter: farFuture,
 		})
 		d := newMapDriver(c, be, cfgTTL, jit)
-		backendOps(c, d, c.Int("nops", 5, 60), false)
+		backendOps(c, d, baseKeys, c.Int("nops", 5, 60))
 		d.compareAll()
 	})
 }
 
 // backendOps drives nops generated operations through d.
-func backendOps(c *Case, d *mapDriver, nops int, collisions bool) {
-	keys := baseKeys
+func backendOps(c *Case, d *mapDriver, keys [][]byte, nops int) {
 	be := d.be
 
 	pickKey := func() []byte { return keys[c.Pick("key", len(keys))] }
